@@ -2,12 +2,13 @@ import TracklibVerif.Lemmas.ViterbiTable
 import TracklibVerif.Lemmas.ViterbiLik
 import TracklibVerif.Lemmas.ViterbiZero
 import TracklibVerif.Lemmas.Hmm
+import TracklibVerif.Lemmas.HmmPos
 import Mathlib.Algebra.Order.Monoid.Defs
 import Mathlib.Algebra.Order.Group.Nat
 /-! # C09 — hidden-Markov decoding returns a maximum-likelihood state sequence
 
 Property theorems only (helpers: `Lemmas/Viterbi.lean`, `Lemmas/ViterbiTable.lean`, `Lemmas/ViterbiLik.lean`,
-`Lemmas/ViterbiZero.lean`, `Lemmas/Hmm.lean`).
+`Lemmas/ViterbiZero.lean`, `Lemmas/Hmm.lean`, `Lemmas/HmmPos.lean`).
 T0–T4c are about `TV.Viterbi.decode`, the table-building executable model of the decoder inside `HMM.estimate`
 that the native driver runs against the real code (`Model/Viterbi.lean`), for a track of `N+1` epochs,
 any numbers of candidate states `t.n k ≥ 1` (they may differ per epoch) and any cost tables.
@@ -15,6 +16,10 @@ T5–T7 are about `TV.Hmm.estimate` (`Model/Hmm.lean`), the call as a whole: the
 (`estimate` honours its `log` argument since fix d19cf43: `self.log = self.log or log`), the compilation of the
 candidate states and of the observations from the track, the cost tables of THAT call, and the writing of
 `hmm_inference` (the state object) / `hmm_cost` — for histories of calls on tracks that already carry results.
+T8–T9 are about the POSITIONS: the modes 3, 4, 5 rebind the position of every epoch to the decoded state object and
+write no coordinate of any object; `x`, `y`, `z` as observation names read the coordinates of whatever object the
+position is when the call is made. T10–T11 are about what `S` may return (`TV.Hmm.estimateS`): anything with a length
+and integer indexing is a candidate list; anything else is a `TypeError` before the track is touched.
 
 Reading of the model: `t.obs k l` is `-Plog(STATES[k][l], OBS[k], k)`, `t.trans k m l` is
 `-Qlog(STATES[k][m], STATES[k+1][l], k)`, `t.add` is Python's `+`, `t.big` the `1e300` sentinel; the
@@ -274,6 +279,74 @@ theorem estimate_twice [LinearOrder β] [Add β] [Neg β] (nm : Num β) (h1 h2 :
     obtain ⟨r2, tr2, hd2, he2, _, _, _, hres2, _⟩ :=
       estimate_ok nm h2 tr1 obs2 log2 mode2 N w1 (by omega) OBS2 hobs2 hS2
     exact ⟨r2, tr2, hd2, he2, hres2⟩
+
+/-- **T8 `estimate_positions`** (modes 3, 4, 5: positions written from states). Hypotheses of T5 and one position per
+epoch. The call writes NO coordinate: the coordinates of the track's own position objects (`xyz`) are what they were
+(those of the state objects, `nm.stXYZ`, are a constant of the model: a state — also one that is the position object of
+another epoch of the same track, or shared by several epochs — is never modified). In the modes 3, 4, 5 the position
+of EVERY epoch is rebound to the state object recorded in `hmm_inference` for that epoch (`r` is the decoding of T5),
+so its coordinates are that state's; in every other mode every position is the object it was. -/
+theorem estimate_positions [LinearOrder β] [Add β] [Neg β] (nm : Num β) (h : Obj β) (tr : Trk β) (obs : List String)
+    (log : Bool) (mode N : Nat) (hwf : tr.WF) (hsize : tr.size = N + 1) (hplen : tr.pos.length = tr.size)
+    (OBS : List (List (ObsItem β)))
+    (hobs : (List.range tr.size).mapM (fun k => getObsK nm tr obs k mode) = .ok OBS)
+    (hS : ∀ k, k ≤ N → h.S tr k ≠ []) :
+    ∃ r tr', decode (tablesOf nm { h with log := h.log || log } tr ((List.range tr.size).map (h.S tr)) OBS) (N+1) = .ok r ∧
+      estimate nm h tr obs log mode = ({ h with log := h.log || log }, tr', none) ∧
+      tr'.xyz = tr.xyz ∧
+      (PosMode mode → ∀ k, k ≤ N → tr'.pos[k]? = some (some ((h.S tr k).getD (seqOf r k) 0)) ∧
+        tr'.posXYZ nm k = some (nm.stXYZ ((h.S tr k).getD (seqOf r k) 0))) ∧
+      (¬ PosMode mode → tr'.pos = tr.pos ∧ ∀ k, tr'.posXYZ nm k = tr.posXYZ nm k) := by
+  obtain ⟨r, tr', hd, he, hx, _, hp, hn⟩ := estimate_pos nm h tr obs log mode N hwf hsize hplen OBS hobs hS
+  refine ⟨r, tr', hd, he, hx, fun hm k hk => ?_, fun hm => ?_⟩
+  · have := hp hm k hk
+    exact ⟨this, by simp [Trk.posXYZ, this]⟩
+  · have := hn hm
+    exact ⟨this, fun k => by simp [Trk.posXYZ, this, hx]⟩
+
+/-- **T9 `positions_as_observations`** (the names `x`, `y`, `z`; `MarkovRegularization` decodes with
+`obs=["x","y","z"]` in mode 4). Reading `x` / `y` / `z` at epoch `k` yields the coordinates of the object the position
+of epoch `k` is at that moment. Hence after a decoding in mode 3, 4, 5 (T8) a further call — or the user — reads the
+coordinates of the decoded STATE of every epoch; after a decoding in any other mode, what was read before. -/
+theorem positions_as_observations (nm : Num β) (tr : Trk β) (k : Nat) (p : β × β × β)
+    (hp : tr.posXYZ nm k = some p) :
+    tr.getObs nm "x" k = .ok (.num p.1) ∧ tr.getObs nm "y" k = .ok (.num p.2.1) ∧
+      tr.getObs nm "z" k = .ok (.num p.2.2) := by
+  refine ⟨?_, ?_, ?_⟩ <;> simp [Trk.getObs, hp]
+
+/-- T8 + T9: what `x`, `y`, `z` read after a decoding in mode 3, 4, 5 -/
+theorem estimate_then_xyz [LinearOrder β] [Add β] [Neg β] (nm : Num β) (h : Obj β) (tr : Trk β) (obs : List String)
+    (log : Bool) (mode N : Nat) (hwf : tr.WF) (hsize : tr.size = N + 1) (hplen : tr.pos.length = tr.size)
+    (OBS : List (List (ObsItem β)))
+    (hobs : (List.range tr.size).mapM (fun k => getObsK nm tr obs k mode) = .ok OBS)
+    (hS : ∀ k, k ≤ N → h.S tr k ≠ []) (hm : PosMode mode) :
+    ∃ r tr', decode (tablesOf nm { h with log := h.log || log } tr ((List.range tr.size).map (h.S tr)) OBS) (N+1) = .ok r ∧
+      estimate nm h tr obs log mode = ({ h with log := h.log || log }, tr', none) ∧
+      ∀ k, k ≤ N →
+        tr'.getObs nm "x" k = .ok (.num (nm.stXYZ ((h.S tr k).getD (seqOf r k) 0)).1) ∧
+        tr'.getObs nm "y" k = .ok (.num (nm.stXYZ ((h.S tr k).getD (seqOf r k) 0)).2.1) ∧
+        tr'.getObs nm "z" k = .ok (.num (nm.stXYZ ((h.S tr k).getD (seqOf r k) 0)).2.2) := by
+  obtain ⟨r, tr', hd, he, _, hp, _⟩ := estimate_positions nm h tr obs log mode N hwf hsize hplen OBS hobs hS
+  exact ⟨r, tr', hd, he, fun k hk => positions_as_observations nm tr' k _ (hp hm k hk).2⟩
+
+/-- **T10 `any_sequence_of_candidates`** (what `S` returns). `estimate` uses `S(track, k)` through `len` and `[i]` only.
+When every epoch's return value has a length — list, tuple, numpy array, `range`, `deque`, a user class — the call is
+exactly `estimate` on the items in index order (`ObjS.toObj`): same flag, same track, same exception if any. So T5–T9
+hold with "candidates of epoch `k`" = the items of whatever `S` returned. -/
+theorem any_sequence_of_candidates [LinearOrder β] [Add β] [Neg β] (nm : Num β) (h : ObjS β) (tr : Trk β)
+    (obs : List String) (log : Bool) (mode : Nat) (hs : ∀ k, k < tr.size → (h.S tr k).isSized = true) :
+    (estimateS nm h tr obs log mode).1.log = (estimate nm h.toObj tr obs log mode).1.log ∧
+    (estimateS nm h tr obs log mode).2 = (estimate nm h.toObj tr obs log mode).2 := by
+  rw [estimateS_sized nm h tr obs log mode hs]
+  exact ⟨rfl, rfl⟩
+
+/-- **T11 `candidates_without_length`.** When `S` returns at some epoch something without a length (a generator, `None`,
+a bare state object): `TypeError`; the flag has been or-ed into the object; NOTHING of the track is written (no feature
+created, no position rebound) — whatever the other epochs, the observations and the mode are. -/
+theorem candidates_without_length [LinearOrder β] [Add β] [Neg β] (nm : Num β) (h : ObjS β) (tr : Trk β)
+    (obs : List String) (log : Bool) (mode : Nat) (k : Nat) (hk : k < tr.size) (hu : (h.S tr k).isSized = false) :
+    estimateS nm h tr obs log mode = ({ h with log := h.log || log }, tr, some .type) :=
+  estimateS_unsized nm h tr obs log mode k hk hu
 end calls
 
 /-! Non-vacuity: a 3-epoch model over ℕ with 2, 1 and 2 candidate states (they differ per epoch; no state
@@ -340,6 +413,28 @@ example : let tr1 := (estimate nmZ hA tr0 ["ya"] false 0).2.1
           let r := estimate nmZ hB tr1 ["ya"] true 0
           (r.1.log, r.2.2, r.2.1.get? "hmm_inference" 0, r.2.1.get? "hmm_inference" 1, r.2.1.get? "hmm_cost" 1)
             = (true, none, some (.st 1), some (.st 0), some (.num 0)) := by
+  decide +kernel
+
+/-- states that are positions: state `s` is at `(10 s, 0, 0)`; a decoding in mode 5 rebinds the positions, `x` then
+reads the decoded states' abscissae; the own coordinates of the track are untouched -/
+private def nmP : Num Int := { nmZ with stXYZ := fun s => (10 * (s : Int), 0, 0) }
+private def trP : Trk Int := { tr0 with xyz := [(3, 4, 5), (6, 7, 8)] }
+example : let r := estimate nmP hA trP ["ya"] false 5
+          (r.2.1.pos, r.2.1.xyz) = ([some 0, some 1], [(3, 4, 5), (6, 7, 8)]) ∧
+          ((r.2.1.getObs nmP "x" 0).toOption, (r.2.1.getObs nmP "x" 1).toOption) = (some (.num 0), some (.num 10)) ∧
+          ((trP.getObs nmP "x" 1).toOption, (trP.getObs nmP "z" 1).toOption) = (some (.num 6), some (.num 8)) := by
+  decide +kernel
+example : PosMode 5 ∧ ¬ PosMode 0 := by unfold PosMode; decide
+/-- `S` returning a tuple at epoch 0 and a numpy array at epoch 1 is `S` returning their items; a generator at epoch 1
+is a TypeError that leaves the track as it was -/
+private def hS1 : ObjS Int := { S := fun _ _ => .sized [0, 1], Q := hA.Q, P := hA.P, log := true }
+private def hS2 : ObjS Int := { S := fun _ k => if k = 1 then .unsized else .sized [0, 1], Q := hA.Q, P := hA.P, log := false }
+example : let a := estimateS nmZ hS1 tr0 ["ya"] false 0
+          let b := estimate nmZ hA tr0 ["ya"] false 0
+          (a.2.1.cols, a.2.1.pos, a.2.2) = (b.2.1.cols, b.2.1.pos, b.2.2) ∧ a.2.1.get? "hmm_inference" 1 = some (.st 1) := by
+  decide +kernel
+example : let a := estimateS nmZ hS2 tr0 ["ya"] true 3
+          (a.2.1.cols, a.2.1.pos, a.2.2, a.1.log) = (tr0.cols, tr0.pos, some .type, true) := by
   decide +kernel
 end example_calls
 end TV.C09
